@@ -398,6 +398,9 @@ namespace GeographicLib {
       // The last condition is that M0 = -1 implies N0 = -1.
       throw GeographicErr("Bad degree and order " +
                           Utility::str(N0) + " " + Utility::str(M0));
+    if (N0 > 46339)
+      // Csize would overflow an int
+      throw GeographicErr("Degree too large " + Utility::str(N0));
     N = truncate ? min(N, N0) : N0;
     M = truncate ? min(M, M0) : M0;
     C.resize(SphericalEngine::coeff::Csize(N, M));
